@@ -125,7 +125,7 @@ void harness_case(Dec &d, Case &c) {
     resetSim(); TestPki &pki = TestPki::get(); Chooser ch{[&](uint32_t n) { return d.pick(n); }, [&]() { return d.byte(); }};
     World w; w.salt = 1 + d.pick(250); Scenario sc; sc.policy = (int)d.pick(P_COUNT);
     // ---- signature -----------------------------------------------------------------------------------------------------
-    BuildOpts o; o.calSalt = w.salt; o.wantRfc = 0; o.maxChains = 2; o.fixedTime = true; o.t = 1500000000 + d.pick(50000000); unsigned kind = d.pick(8); o.wantCal = kind != 0; o.wantPub = kind >= 1 && kind <= 3; o.wantAuth = kind >= 4 && kind <= 6;
+    BuildOpts o; o.calSalt = w.salt; o.wantRfc = 0; o.maxChains = 2; o.fixedTime = true; { uint32_t r = d.pick(50000000); o.t = r % 16 == 5 ? 4107542400ULL + r /* from 2100-03-01 on: beyond 32 bits and behind a century year that is no leap year */ : 1500000000ULL + r; } unsigned kind = d.pick(8); o.wantCal = kind != 0; o.wantPub = kind >= 1 && kind <= 3; o.wantAuth = kind >= 4 && kind <= 6;
     o.fixedPubTime = true; o.p = o.t + 1 + (d.flag() ? d.pick(5000) : d.pick(3000000));
     w.sig = buildConsistent(ch, o); w.t = w.sig.chains[0].aggrTime; w.sv = evaluate(w.sig); if (!w.sv.consistent()) { c.skip("builder produced an inconsistent source"); return; }
     w.aggrRoot = w.sv.aggrRoot; w.p = w.sig.hasCal ? w.sig.cal.pubTime : 0; w.calRoot = w.sv.calRoot;
@@ -153,7 +153,7 @@ void harness_case(Dec &d, Case &c) {
     { unsigned n = d.pick(4); std::set<uint64_t> seen; for (unsigned i = 0; i < n; i++) { unsigned cat = d.pick(8); cat = cat < 1 ? 0 : (cat < 2 ? 1 : (cat < 5 ? 2 : 3)); Pub p = mkPub(cat, d.pick(200), hashMode()); if (seen.insert(p.time).second) sc.filePubs.push_back(p); } }
     // ---- publications file bytes --------------------------------------------------------------------------------------------
     Bytes fileBytes; { std::vector<Tlv> recs; recs.push_back(headerRec());
-        if (sc.certMode) { uint64_t nb = 946684800, na = 4102444799ULL; switch (sc.window) { case 1: na = base.t - 1 - d.pick(100000); break; case 2: nb = base.t + 1 + d.pick(100000); break; case 3: nb = base.t; break; case 4: na = base.t; break; case 5: nb = base.t + 1 + d.pick((uint32_t)(base.p - base.t - 1)); break; default: break; }
+        if (sc.certMode) { uint64_t nb = 946684800, na = base.t > 4000000000ULL ? base.t + 315360000ULL : 4102444799ULL; switch (sc.window) { case 1: na = base.t - 1 - d.pick(100000); break; case 2: nb = base.t + 1 + d.pick(100000); break; case 3: nb = base.t; break; case 4: na = base.t; break; case 5: nb = base.t + 1 + d.pick((uint32_t)(base.p - base.t - 1)); break; default: break; }
             X509 *cert = pki.mint(pki.rootA, sc.ecKey ? pki.ecKey : pki.s[0].key, {{"C", "EE"}, {"O", "Verif Publisher"}, {"CN", "Calendar signer"}}, asn1Time(nb).c_str(), asn1Time(na).c_str(), 77, false); Bytes der = TestPki::derOf(cert); X509_free(cert);
             Tlv cr(0x702); cr.add(Tlv::raw(0x01, sc.certMode == 1 ? kCertId : Bytes{1, 2, 3, 4})); cr.add(Tlv::raw(0x02, der)); recs.push_back(cr); }
         for (auto &p : sc.filePubs) { PubRecord r; r.data.time = p.time; r.data.hash = p.hash; recs.push_back(r.toTlv(0x703)); }
@@ -205,6 +205,7 @@ void harness_case(Dec &d, Case &c) {
              (base.sig.hasAuth ? std::string(" auth-sig=") + (sc.authSig == 0 ? "valid" : sc.authSig == 1 ? "altered" : sc.authSig == 2 ? "other-key" : sc.authSig == 3 ? "arbitrary-octets" : sc.authSig == 4 ? "trailing-octet" : "cut") + (sc.ecKey ? "/ec" : "/rsa") : "") + " extending=" + (sc.extendingAllowed ? "allowed" : "forbidden") + " extender=" + kDevName[pl.dev] + " v" + num(pl.ver) + (tcp ? " tcp" : " http") + " => expect " +
              (e.kind == X_BOUND ? "bound" : e.kind == X_FAIL ? "FAIL" : e.kind == X_INCONCLUSIVE ? "inconclusive" : "nothing") + "(" + e.why + ")";
     if (base.sig.hasAuth && sc.certMode == 1 && (sc.policy == P_KEY || sc.policy == P_GENERAL)) { static const char *an[] = {"valid", "altered", "other-key", "arbitrary-octets", "trailing-octet", "cut"}; c.cls(std::string("auth-sig:") + an[sc.authSig] + (sc.ecKey ? "/ec" : "/rsa")); }
+    if (base.t > 4000000000ULL) c.cls("time:year-2100-or-later");
     c.nontrivial = true; c.cls(std::string("policy:") + kPolName[sc.policy]); c.cls("sig:" + sk); c.cls(std::string("extender:") + kDevName[pl.dev]); if (extRequests) c.cls("extender-contacted"); if (pubFetches) c.cls("publications-file-downloaded");
     std::string obs = rc != KSI_OK ? "error-status" : (resultCode == KSI_VER_RES_OK ? "OK" : resultCode == KSI_VER_RES_FAIL ? "FAIL" : "NA"); c.cls("observed:" + obs);
     std::string got = obs + "(" + num(rc != KSI_OK ? rc : errorCode) + ")";
